@@ -89,7 +89,8 @@ def monitor_cases(rng, tier, stats):
         d = rng.choice([2, 2, 3, 3, 4] if tier == "quick" else [2, 3, 3, 4, 5])
         hi = 10 if d <= 3 else (5 if d == 4 else 3)
         N = [rng.randint(1, hi) for _ in range(d)]
-        mode = rng.choice(["truediv", "rtruediv", "fn", "fn-prec", "fn-guess"])
+        mode = ["truediv", "rtruediv", "fn", "fn-prec", "fn-guess", "fn-guess-self", "fn-guess-divisor"][c % 7] if c % 2 == 0 else \
+            rng.choice(["truediv", "rtruediv", "fn", "fn-prec", "fn-guess"])
         tol = 1e-12 if mode in ("truediv", "rtruediv") else 10.0 ** rng.uniform(-10, -4)
         seed = rng.randrange(1 << 30)
         box = {}
@@ -111,7 +112,17 @@ def monitor_cases(rng, tier, stats):
                     kw["preconditioner"] = "c"
                 if mode == "fn-guess":
                     kw["starting_tensor"] = torchtt.randn(N, [1] + [2] * (d - 1) + [1])
-                q = torchtt.elementwise_divide(x, y, **kw); num = x
+                num = x
+                if mode == "fn-guess-self":
+                    # the numerator itself as warm start (natural when y is close to 1): operands and guess may be the same object
+                    kw["starting_tensor"] = x
+                    num = x.clone()
+                if mode == "fn-guess-divisor":
+                    kw["starting_tensor"] = y
+                    ykeep = y.clone()
+                q = torchtt.elementwise_divide(x, y, **kw)
+                if mode == "fn-guess-divisor":
+                    y = ykeep
             if not isinstance(q, torchtt.TT) or q.is_ttm or list(q.N) != list(N):
                 box["shape"] = "result has shape %s" % (getattr(q, "N", None),)
                 return "bad-shape"
